@@ -6,6 +6,7 @@ import NbdimeProofs.Lemmas.KeywiseMore
 import NbdimeProofs.Lemmas.ApplyChoose
 import NbdimeProofs.Lemmas.MergeCells
 import NbdimeProofs.Lemmas.MixedStage
+import NbdimeProofs.Lemmas.MergeTotal
 import NbdimeProofs.Lemmas.JsonEq
 import NbdimeProofs.Lemmas.NbWf
 import NbdimeProofs.Properties.C01
@@ -597,6 +598,50 @@ theorem C06_model_mixed (E : Env) (base : J) (k : String) (ld rd : List Op) (ds 
   · cases hm
 
 open Merge in
+/-- **C11 on the mixed domain**: every local / remote diff inside a decision of a mixed merge is well-formed for the
+    sub-document at the decision's path -/
+theorem C11_model_mixed_decisions_wf (E : Env) (base : J) (k : String) (ld rd : List Op) (ds : List MD)
+    (hm : mixedwise base k ld rd = true) (h : decideMerge E base ld rd = .ok ds) :
+    ∀ d ∈ ds, ∀ x, (d.localDiff = some x ∨ d.remoteDiff = some x) → wfAt base d.path x = true := by
+  unfold mixedwise at hm
+  split at hm
+  · rename_i kvs xs dL dR hparts
+    obtain ⟨rfl, hk, hkL, hkR⟩ := mixedParts_spec hparts
+    simp only [Bool.and_eq_true, Bool.not_eq_true', List.all_eq_true, bne_iff_ne, ne_eq, Bool.or_eq_true, beq_iff_eq] at hm
+    obtain ⟨⟨⟨⟨⟨⟨⟨⟨⟨hc, hwl⟩, hwr⟩, hint⟩, haL⟩, haR⟩, hne⟩, hdis⟩, hpy⟩, hag⟩ := hm
+    rw [wf] at hwl hwr
+    obtain ⟨hmapL, hndL, _⟩ := wfObj_shape kvs ld [] hwl
+    obtain ⟨hmapR, hndR, _⟩ := wfObj_shape kvs rd [] hwr
+    have okL := wfObj_entries kvs ld [] hwl
+    have okR := wfObj_entries kvs rd [] hwr
+    obtain ⟨R, rfl, hRmem⟩ := mixed_decisions E kvs ld rd ds k xs dL dR hmapL hndL hmapR hndR hkL hkR
+      (fun el hel er her hkey hnk => by
+        rcases hag el hel er her with (h1 | h1) | h1
+        · exact absurd hkey h1
+        · exact absurd h1 hnk
+        · exact Op.beq_eq el er h1)
+      hk (ascPatchB_spec 0 dL haL) (ascPatchB_spec 0 dR haR) (fun e0 h0 e1 h1 => hdis e0 h0 e1 h1) hpy h
+    have hwL : wfList xs dL 0 none = true := by
+      have := okL _ hkL
+      simp only [entryOk, hk, Bool.and_eq_true] at this
+      have h2 := this.2.2
+      rw [wf] at h2
+      exact h2
+    have hwR : wfList xs dR 0 none = true := by
+      have := okR _ hkR
+      simp only [entryOk, hk, Bool.and_eq_true] at this
+      have h2 := this.2.2
+      rw [wf] at h2
+      exact h2
+    intro d hd
+    rcases hRmem d (mem_sortDesc R d hd) with hw | ⟨s, e, rfl, hme, _, he | he⟩
+    · exact walk_items_wf kvs k xs dL dR hk (ascPatchB_spec 0 dL haL) (ascPatchB_spec 0 dR haR)
+        (fun e0 h0 e1 h1 => hdis e0 h0 e1 h1) hwL hwR d hw
+    · exact mkSide_wfAt kvs s e hme (okL e he)
+    · exact mkSide_wfAt kvs s e hme (okR e he)
+  · cases hm
+
+open Merge in
 /-- end to end for notebooks: `ld` and `rd` are the diffs the notebook differ computes from `base` to the local and to the
     remote notebook (any sound table configuration). If they are in the mixed domain — different cells edited, other root
     keys changed by one side or by both in the same way —, the merged document is the local notebook with the remaining
@@ -748,6 +793,271 @@ theorem C05_model_cells_symmetric (E : Env) (base : J) (ld rd : List Op) (ds1 ds
       simp only [hR1, hR2]
   obtain ⟨b1, b2⟩ := C06_model_cells E (.obj kvs) [.patchK k dR] [.patchK k dL] ds2 X hcw2 hX2 h2
   exact ⟨a1, b1, a2, b2⟩
+
+open Merge in
+/-- **C03 on the mixed domain**: the merge completes — no exception, whatever the strategy table and the oracle -/
+theorem C03_model_mixed_total (E : Env) (base : J) (k : String) (ld rd : List Op)
+    (hm : mixedwise base k ld rd = true) : ∃ ds, decideMerge E base ld rd = .ok ds := by
+  unfold mixedwise at hm
+  split at hm
+  · rename_i kvs xs dL dR hparts
+    obtain ⟨rfl, hk, hkL, hkR⟩ := mixedParts_spec hparts
+    simp only [Bool.and_eq_true, Bool.not_eq_true', List.all_eq_true, bne_iff_ne, ne_eq, Bool.or_eq_true, beq_iff_eq] at hm
+    obtain ⟨⟨⟨⟨⟨⟨⟨⟨⟨hc, hwl⟩, hwr⟩, hint⟩, haL⟩, haR⟩, hne⟩, hdis⟩, hpy⟩, hag⟩ := hm
+    rw [wf] at hwl hwr
+    obtain ⟨hmapL, hndL, _⟩ := wfObj_shape kvs ld [] hwl
+    obtain ⟨hmapR, hndR, _⟩ := wfObj_shape kvs rd [] hwr
+    have okL := wfObj_entries kvs ld [] hwl
+    have okR := wfObj_entries kvs rd [] hwr
+    have hwL : wfList xs dL 0 none = true := by
+      have := okL _ hkL
+      simp only [entryOk, hk, Bool.and_eq_true] at this
+      have h2 := this.2.2
+      rw [wf] at h2
+      exact h2
+    have hwR : wfList xs dR 0 none = true := by
+      have := okR _ hkR
+      simp only [entryOk, hk, Bool.and_eq_true] at this
+      have h2 := this.2.2
+      rw [wf] at h2
+      exact h2
+    exact mixed_total E kvs ld rd k xs dL dR hmapL hndL hmapR hndR hkL hkR
+      (fun el hel er her hkey hnk => by
+        rcases hag el hel er her with (h1 | h1) | h1
+        · exact absurd hkey h1
+        · exact absurd h1 hnk
+        · exact Op.beq_eq el er h1)
+      hk (ascPatchB_spec 0 dL haL) (ascPatchB_spec 0 dR haR) (fun e0 h0 e1 h1 => hdis e0 h0 e1 h1) hpy
+      (wfList_idx_lt xs dL (ascPatchB_spec 0 dL haL) hwL) (wfList_idx_lt xs dR (ascPatchB_spec 0 dR haR) hwR)
+  · cases hm
+
+open Merge in
+/-- the whole of C03 / C06 / C11 on the mixed domain in one statement: inside the domain, if the two diffs apply one after
+    the other (to X), the merge completes, reports no conflict, every diff inside its decisions is well-formed, and
+    applying the decisions to base gives X — every strategy table, every oracle. -/
+theorem C06_model_mixed_all (E : Env) (base : J) (k : String) (ld rd : List Op) (X : J)
+    (hm : mixedwise base k ld rd = true) (hX : patchBothMixed base k ld rd = .ok X) :
+    ∃ ds, decideMerge E base ld rd = .ok ds ∧ (∀ d ∈ ds, d.conflict = false) ∧
+      applyDecisions base (ds.map MD.toDecision) = .ok X ∧
+      ∀ d ∈ ds, ∀ x, (d.localDiff = some x ∨ d.remoteDiff = some x) → wfAt base d.path x = true := by
+  obtain ⟨ds, h⟩ := C03_model_mixed_total E base k ld rd hm
+  obtain ⟨a1, a2⟩ := C06_model_mixed E base k ld rd ds X hm hX h
+  exact ⟨ds, h, a2, a1, C11_model_mixed_decisions_wf E base k ld rd ds hm h⟩
+
+open Merge in
+/-- **C03 on the cell-wise domain**: the merge of well-formed patches of different cells completes -/
+theorem C03_model_cells_total (E : Env) (base : J) (ld rd : List Op)
+    (hcw : cellwise base ld rd = true) (hwl : wf base ld = true) (hwr : wf base rd = true) :
+    ∃ ds, decideMerge E base ld rd = .ok ds := by
+  obtain ⟨kvs, k, xs, dL, dR, rfl, rfl, rfl, hc, hl, haL, haR, hne, hdis, hpy⟩ := cellwise_unpack hcw
+  rw [wf] at hwl hwr
+  obtain ⟨hmapL, hndL, _⟩ := wfObj_shape kvs [.patchK k dL] [] hwl
+  obtain ⟨hmapR, hndR, _⟩ := wfObj_shape kvs [.patchK k dR] [] hwr
+  have okL := wfObj_entries kvs _ [] hwl _ List.mem_cons_self
+  have okR := wfObj_entries kvs _ [] hwr _ List.mem_cons_self
+  have hwL : wfList xs dL 0 none = true := by
+    simp only [entryOk, hl, Bool.and_eq_true] at okL
+    have h2 := okL.2.2
+    rw [wf] at h2
+    exact h2
+  have hwR : wfList xs dR 0 none = true := by
+    simp only [entryOk, hl, Bool.and_eq_true] at okR
+    have h2 := okR.2.2
+    rw [wf] at h2
+    exact h2
+  exact mixed_total E kvs _ _ k xs dL dR hmapL hndL hmapR hndR List.mem_cons_self List.mem_cons_self
+    (fun el hel er her hkey hnk => by
+      simp only [List.mem_singleton] at hel
+      subst hel
+      exact absurd rfl hnk)
+    hl haL haR hdis hpy (wfList_idx_lt xs dL haL hwL) (wfList_idx_lt xs dR haR hwR)
+
+open Merge in
+/-- **C10 on the mixed domain**: the merged document does not depend on the strategy — any two strategy tables (use-local,
+    use-remote, inline, …) and oracles give the same document, the one with both sets of changes (there is no conflict to
+    resolve to a side) -/
+theorem C10_model_mixed_any_strategy (E1 E2 : Env) (base : J) (k : String) (ld rd : List Op) (X : J)
+    (hm : mixedwise base k ld rd = true) (hX : patchBothMixed base k ld rd = .ok X) :
+    mergeApply E1 base ld rd = .ok X ∧ mergeApply E2 base ld rd = .ok X := by
+  obtain ⟨ds1, h1, _, a1, _⟩ := C06_model_mixed_all E1 base k ld rd X hm hX
+  obtain ⟨ds2, h2, _, a2, _⟩ := C06_model_mixed_all E2 base k ld rd X hm hX
+  constructor
+  · unfold mergeApply; simp only [h1, bind, Except.bind, a1]
+  · unfold mergeApply; simp only [h2, bind, Except.bind, a2]
+
+theorem lookupEdit_some_mem (es : List CellEdit) (i : Nat) (pv : J) (h : lookupEdit es i = some pv) :
+    ∃ e ∈ es, e.j = i ∧ e.pv = pv := by
+  unfold lookupEdit at h
+  cases hf : es.find? (fun e => e.j == i) with
+  | none => simp [hf] at h
+  | some e =>
+    simp only [hf, Option.map_some, Option.some.injEq] at h
+    exact ⟨e, List.mem_of_find?_eq_some hf, by simpa using List.find?_some hf, h⟩
+
+open Merge NbShape in
+/-- **C04 on the cell-wise domain**: the two sides edit different cells; then every cell of the merged notebook is a cell of
+    the local or of the remote notebook — so if the cells of both are valid for the declared format (`NbShape.validCells`, the
+    cell part of the nbformat schema), so are the cells of the merged notebook. Every strategy table, every oracle. -/
+theorem C04_model_cells_valid (E : Env) (base : J) (ld rd : List Op) (ds : List MD) (L R X : J) (minor : Nat)
+    (hcw : cellwise base ld rd = true) (hL : patch base ld = .ok L) (hR : patch base rd = .ok R)
+    (hX : patchBoth base ld rd = .ok X) (h : decideMerge E base ld rd = .ok ds) :
+    applyDecisions base (ds.map MD.toDecision) = .ok X ∧
+    ∃ k lc rc xc, getKey L (.s k) = .ok (.arr lc) ∧ getKey R (.s k) = .ok (.arr rc) ∧ getKey X (.s k) = .ok (.arr xc) ∧
+      (∀ c ∈ xc, c ∈ lc ∨ c ∈ rc) ∧ (validCells minor lc = true → validCells minor rc = true → validCells minor xc = true) ∧
+      (∀ (i : Nat) (bc : List J), getKey base (.s k) = .ok (.arr bc) →
+        (lc[i]? ≠ bc[i]? → xc[i]? = lc[i]?) ∧ (rc[i]? ≠ bc[i]? → xc[i]? = rc[i]?)) := by
+  refine ⟨(C06_model_cells E base ld rd ds X hcw hX h).1, ?_⟩
+  obtain ⟨kvs, k, xs, dL, dR, rfl, rfl, rfl, hc, hl, haL, haR, hne, hdis, hpy⟩ := cellwise_unpack hcw
+  have hcc := hc
+  simp only [J.canonical, Bool.and_eq_true] at hcc
+  have hb : SK kvs := keysSorted_sk kvs hcc.1
+  obtain ⟨RL, EL, rfl, aL, dLeq, fL, gL⟩ := cell_edits kvs hb k xs hl dL haL L hL
+  obtain ⟨RR, ER, rfl, aR, dReq, fR, gR⟩ := cell_edits kvs hb k xs hl dR haR R hR
+  unfold patchBoth at hX
+  simp only [hL, bind, Except.bind] at hX
+  have hsL : SK (insertKV k (.arr RL) kvs) := insertKV_sorted _ _ _ hb
+  have hkL : lookupKV k (insertKV k (.arr RL) kvs) = some (.arr RL) := by rw [lookupKV_insertKV]; simp
+  obtain ⟨RX, ER', hXeq, aR', dReq', fR', gR'⟩ := cell_edits _ hsL k RL hkL dR haR X hX
+  rw [insertKV_twice k (.arr RL) (.arr RX) kvs hb] at hXeq
+  subst hXeq
+  have hmem : ∀ c ∈ RX, c ∈ RL ∨ c ∈ RR := by
+    intro c hcm
+    obtain ⟨i, hi⟩ := List.getElem?_of_mem hcm
+    rw [gR' i] at hi
+    cases hrl : RL[i]? with
+    | none => simp [hrl] at hi
+    | some y =>
+      simp only [hrl, Option.map_some, Option.some.injEq] at hi
+      cases hed : lookupEdit ER' i with
+      | none =>
+        simp only [hed, Option.getD_none] at hi
+        subst hi
+        exact Or.inl (List.mem_of_getElem? hrl)
+      | some pv =>
+        simp only [hed, Option.getD_some] at hi
+        subst hi
+        right
+        obtain ⟨e, he, hej, hepv⟩ := lookupEdit_some_mem ER' i pv hed
+        -- the same entry among the remote edits against base
+        have hm : Op.patchI e.j e.dd ∈ dR := by rw [dReq']; exact List.mem_map_of_mem (f := fun e => Op.patchI e.j e.dd) he
+        rw [dReq] at hm
+        obtain ⟨e', he', hpe⟩ := List.mem_map.mp hm
+        simp only [Op.patchI.injEq] at hpe
+        obtain ⟨f1, f2⟩ := fR' e he
+        obtain ⟨g1, g2⟩ := fR e' he'
+        -- no local edit at that index: the item is the base item
+        have hnoL : lookupEdit EL e.j = none := by
+          apply lookupEdit_none
+          intro eL hL' heq
+          have m0 : Op.patchI eL.j eL.dd ∈ dL := by rw [dLeq]; exact List.mem_map_of_mem (f := fun e => Op.patchI e.j e.dd) hL'
+          have m1 : Op.patchI e.j e.dd ∈ dR := by rw [dReq']; exact List.mem_map_of_mem (f := fun e => Op.patchI e.j e.dd) he
+          exact hdis _ m0 _ m1 heq
+        have hv : e.v = e'.v := by
+          have := gL e.j
+          rw [f1, hnoL, ← hpe.1, g1] at this
+          simpa using this
+        have hpv : e.pv = e'.pv := by
+          rw [hv] at f2
+          have : patch e'.v e'.dd = .ok e.pv := by rw [hpe.2]; exact f2
+          rw [g2] at this
+          exact (Except.ok.inj this).symm
+        -- so the merged item is the remote item
+        have hRRi : RR[e'.j]? = some e'.pv := by
+          rw [gR e'.j, g1, lookupEdit_mem aR e' he']
+          rfl
+        rw [← hepv, hpv]
+        exact List.mem_of_getElem? hRRi
+  -- the remote edits against base and against the locally patched list are the same edits
+  have hsame : ∀ e' ∈ ER, ∃ e ∈ ER', e.j = e'.j ∧ e.pv = e'.pv := by
+    intro e' he'
+    have hm : Op.patchI e'.j e'.dd ∈ dR := by rw [dReq]; exact List.mem_map_of_mem (f := fun e => Op.patchI e.j e.dd) he'
+    have hm1 := hm
+    rw [dReq'] at hm
+    obtain ⟨e, he, hpe⟩ := List.mem_map.mp hm
+    simp only [Op.patchI.injEq] at hpe
+    obtain ⟨f1, f2⟩ := fR' e he
+    obtain ⟨g1, g2⟩ := fR e' he'
+    have hnoL : lookupEdit EL e.j = none := by
+      apply lookupEdit_none
+      intro eL hL' heq
+      have m0 : Op.patchI eL.j eL.dd ∈ dL := by rw [dLeq]; exact List.mem_map_of_mem (f := fun e => Op.patchI e.j e.dd) hL'
+      have m1 : Op.patchI e.j e.dd ∈ dR := by rw [dReq']; exact List.mem_map_of_mem (f := fun e => Op.patchI e.j e.dd) he
+      exact hdis _ m0 _ m1 heq
+    have hv : e.v = e'.v := by
+      have := gL e.j
+      rw [f1, hnoL, hpe.1, g1] at this
+      simpa using this
+    refine ⟨e, he, hpe.1, ?_⟩
+    rw [hv, hpe.2] at f2
+    rw [g2] at f2
+    exact (Except.ok.inj f2).symm
+  refine ⟨k, RL, RR, RX, by simp [getKey, lookupKV_insertKV], by simp [getKey, lookupKV_insertKV], by simp [getKey, lookupKV_insertKV], hmem, ?_, ?_⟩
+  · intro vl vr
+    unfold validCells at *
+    rw [List.all_eq_true] at *
+    intro c hcm
+    rcases hmem c hcm with h1 | h1
+    · exact vl c h1
+    · exact vr c h1
+  · intro i bc hbc
+    have hbx : bc = xs := by
+      simp only [getKey, hl, Except.ok.injEq, J.arr.injEq] at hbc
+      exact hbc.symm
+    subst hbx
+    constructor
+    · intro hdiff
+      -- a local edit at i, hence no remote edit there
+      cases hle : lookupEdit EL i with
+      | none =>
+        exfalso; apply hdiff
+        rw [gL i, hle]
+        cases bc[i]? <;> simp
+      | some pv =>
+        obtain ⟨eL, heL, hj, _⟩ := lookupEdit_some_mem EL i pv hle
+        have hnoR : lookupEdit ER' i = none := by
+          apply lookupEdit_none
+          intro eR hR' heq
+          have m0 : Op.patchI eL.j eL.dd ∈ dL := by rw [dLeq]; exact List.mem_map_of_mem (f := fun e => Op.patchI e.j e.dd) heL
+          have m1 : Op.patchI eR.j eR.dd ∈ dR := by rw [dReq']; exact List.mem_map_of_mem (f := fun e => Op.patchI e.j e.dd) hR'
+          exact hdis _ m0 _ m1 (by show eL.j = eR.j; rw [hj, heq])
+        rw [gR' i, hnoR]
+        cases RL[i]? <;> simp
+    · intro hdiff
+      cases hre : lookupEdit ER i with
+      | none =>
+        exfalso; apply hdiff
+        rw [gR i, hre]
+        cases bc[i]? <;> simp
+      | some pv =>
+        obtain ⟨e', he', hj, hpv⟩ := lookupEdit_some_mem ER i pv hre
+        obtain ⟨e, he, hje, hpe⟩ := hsame e' he'
+        have hnoL : lookupEdit EL i = none := by
+          apply lookupEdit_none
+          intro eL hL' heq
+          have m0 : Op.patchI eL.j eL.dd ∈ dL := by rw [dLeq]; exact List.mem_map_of_mem (f := fun e => Op.patchI e.j e.dd) hL'
+          have m1 : Op.patchI e'.j e'.dd ∈ dR := by rw [dReq]; exact List.mem_map_of_mem (f := fun e => Op.patchI e.j e.dd) he'
+          exact hdis _ m0 _ m1 (by show eL.j = e'.j; rw [heq, hj])
+        have h1 : lookupEdit ER' i = some e.pv := by
+          have := lookupEdit_mem aR' e he
+          rw [hje, hj] at this
+          exact this
+        rw [gR' i, h1, gL i, hnoL, gR i, hre, hpe, hpv]
+        cases bc[i]? <;> simp
+
+open Merge NbShape in
+/-- **C07 at cell granularity, on the cell-wise domain**: nothing is invented — every cell of the merged notebook is a cell
+    of the local or of the remote notebook — and nothing is dropped — a cell the local (remote) side changed is, at its
+    place, the local (remote) cell in the merged notebook. -/
+theorem C07_model_cells_survival (E : Env) (base : J) (ld rd : List Op) (ds : List MD) (L R X : J)
+    (hcw : cellwise base ld rd = true) (hL : patch base ld = .ok L) (hR : patch base rd = .ok R)
+    (hX : patchBoth base ld rd = .ok X) (h : decideMerge E base ld rd = .ok ds) :
+    applyDecisions base (ds.map MD.toDecision) = .ok X ∧
+    ∃ k lc rc xc, getKey L (.s k) = .ok (.arr lc) ∧ getKey R (.s k) = .ok (.arr rc) ∧ getKey X (.s k) = .ok (.arr xc) ∧
+      (∀ c ∈ xc, c ∈ lc ∨ c ∈ rc) ∧
+      (∀ (i : Nat) (bc : List J), getKey base (.s k) = .ok (.arr bc) →
+        (lc[i]? ≠ bc[i]? → xc[i]? = lc[i]?) ∧ (rc[i]? ≠ bc[i]? → xc[i]? = rc[i]?)) := by
+  obtain ⟨a, k, lc, rc, xc, h1, h2, h3, h4, _, h6⟩ := C04_model_cells_valid E base ld rd ds L R X 5 hcw hL hR hX h
+  exact ⟨a, k, lc, rc, xc, h1, h2, h3, h4, h6⟩
 
 namespace C05ex
 open Merge
